@@ -177,6 +177,13 @@ let handler r =
   | "matdt" -> let m = table r in
       (* Determinant() then Trace() of an arbitrary rectangular matrix (ties the recursive Laplace model for every size) *)
       out_res (let* d = mdet fops m in let* t = mtrace fops m in Ok (put_f d; put_f t))
+  | "matinv" -> let m = table r in
+      (* Inverse() then Norm() of an arbitrary rectangular matrix *)
+      out_res (let* mi = minverse fops m in Ok (put_mat mi; put_f (mnorm fops m)))
+  | "matorth" -> let m = table r in
+      out_res (let* iv = minvertible fops m in let* orth = morthogonal fops m in Ok (put_b iv; put_b orth; put_mat (mtranspose fops m)))
+  | "rotinv" -> let alpha = num r in let dim = integer r in let ax = list r in
+      out_res (let* ((ri, rt), nr) = rotation_inverse fops alpha (z_of_int dim) ax in Ok (put_mat ri; put_mat rt; put_f nr))
   | "angle" ->
       out_res (let* a = rd_vec r in let* b = rd_vec r in let* x = angle fops a b in Ok (put_f x))
   | "cross" ->
